@@ -1184,21 +1184,90 @@ func TestVS_StreamPool(t *testing.T) {
 		os.WriteFile(os.Getenv("VS_OUT"), out, 0o644)
 	}
 	defer flush()
-	nviol := 0
-	for _, h := range job.Histories {
-		spRunHistory(h, job.Known, res, false)
-		if len(res.Violations) != nviol {
-			nviol = len(res.Violations)
-			flush() // a later hang must not lose what has been observed
+	// histories are independent worlds (own pairs, own pool): they are replayed by a few workers side by side; each
+	// history's observations are merged into the result under a lock, and flushed when a violation was seen (a later
+	// hang must not lose what has been observed)
+	var mu sync.Mutex
+	newLocal := func() *spResult {
+		return &spResult{Violations: []spViolation{}, Drift: []string{}, Samples: []string{}, KnownHits: map[string]int{},
+			KnownWit: map[string]string{}, OracleEvals: map[string]int{}, ConcTraces: [][]spConcEvent{}}
+	}
+	merge := func(l *spResult, guarded bool) {
+		mu.Lock()
+		defer mu.Unlock()
+		if guarded {
+			res.RandomRuns++
+			res.RandomSteps += l.Steps
+		} else {
+			res.Replayed += l.Replayed
+			res.Steps += l.Steps
+			res.Conforming += l.Conforming
 		}
-		if len(res.Violations) >= 8 || spHung.Load() != nil {
-			return
+		res.DriftCount += l.DriftCount
+		for _, d := range l.Drift {
+			if len(res.Drift) < 6 {
+				res.Drift = append(res.Drift, d)
+			}
 		}
+		for k, v := range l.KnownHits {
+			res.KnownHits[k] += v
+		}
+		for k, v := range l.KnownWit {
+			if res.KnownWit[k] == "" {
+				res.KnownWit[k] = v
+			}
+		}
+		for k, v := range l.OracleEvals {
+			res.OracleEvals[k] += v
+		}
+		for _, s := range l.Samples {
+			if len(res.Samples) < 3 {
+				res.Samples = append(res.Samples, s)
+			}
+		}
+		if len(l.Violations) > 0 {
+			res.Violations = append(res.Violations, l.Violations...)
+			flush()
+		}
+	}
+	stop := func(limit int) bool {
+		mu.Lock()
+		defer mu.Unlock()
+		return len(res.Violations) >= limit || spHung.Load() != nil
+	}
+	runAll := func(hs []spHistory, guarded bool, limit int) {
+		workers := 4
+		if os.Getenv("VS_DEBUG") != "" {
+			workers = 1
+		}
+		var next int32 = -1
+		var wg sync.WaitGroup
+		for k := 0; k < workers; k++ {
+			wg.Add(1)
+			go func() {
+				defer wg.Done()
+				for {
+					i := int(atomic.AddInt32(&next, 1))
+					if i >= len(hs) || stop(limit) {
+						return
+					}
+					l := newLocal()
+					spRunHistory(hs[i], job.Known, l, guarded)
+					merge(l, guarded)
+				}
+			}()
+		}
+		wg.Wait()
+	}
+	runAll(job.Histories, false, 8)
+	if stop(8) {
+		return
 	}
 	// seeded random histories (oracles only): any action, skipped when not applicable
 	rng := rand.New(rand.NewSource(job.Random.Seed))
 	acts := []string{"Get", "Get", "Put", "Put", "Send", "Send", "Read", "Write", "PeerReply", "PeerReply", "PeerClose", "CloseHeld",
 		"SessClose", "Teardown", "PoolDrain", "Rebuild"}
+	var rh []spHistory
 	for run := 0; run < job.Random.N; run++ {
 		h := spHistory{Name: fmt.Sprintf("random seed=%d run=%d", job.Random.Seed, run), Cap: job.Random.Cap, Callers: job.Random.Callers, N: 0}
 		if run%3 == 1 {
@@ -1211,20 +1280,11 @@ func TestVS_StreamPool(t *testing.T) {
 			}
 			h.Steps = append(h.Steps, spStep{A: a, C: 1 + rng.Intn(h.Callers), S: 1 + rng.Intn(4), F: rng.Intn(5) == 0})
 		}
-		before := len(res.Violations)
-		r0 := res.Replayed
-		s0 := res.Steps
-		spRunHistory(h, job.Known, res, true)
-		res.Replayed = r0
-		res.RandomRuns++
-		res.RandomSteps += res.Steps - s0
-		res.Steps = s0
-		if len(res.Violations) > before {
-			flush()
-		}
-		if len(res.Violations) >= 4 || spHung.Load() != nil {
-			return
-		}
+		rh = append(rh, h)
+	}
+	runAll(rh, true, 4)
+	if stop(4) {
+		return
 	}
 	for run := 0; run < job.Conc.Runs; run++ {
 		spRunConcurrent(job.Conc, run, res)
